@@ -195,3 +195,58 @@ def input_scalar_items(schema, scalars_cfg: dict) -> dict[str, list[str]]:
                     items.extend(scalar_items(scalars_cfg[nt.name]))
             out[name] = items
     return out
+
+
+# ---- fields of an input type for Model/Prune.v `derive` (independent of the generator) ----
+BUILTIN_SCALARS = {"String", "Int", "Float", "Boolean", "ID"}
+
+
+def _item(path):
+    if path and "." in path:
+        mod, obj = path.rsplit(".", 1)
+        return f"{mod}:{obj}"
+    return None
+
+
+def input_fields_sx(schema, scalars_cfg: dict):
+    """input type -> [[name, nullable-somewhere, list-somewhere, base, collection-default], ...] as model sexps."""
+    from graphql import (GraphQLList, GraphQLNonNull, GraphQLScalarType, ListValueNode, ObjectValueNode)
+
+    from ..sexp import Sym, opt
+
+    out = {}
+    for name, t in schema.type_map.items():
+        if not isinstance(t, GraphQLInputObjectType) or name.startswith("__"):
+            continue
+        fields = []
+        for fname, f in t.fields.items():
+            ty, nullable, is_list, nonnull = f.type, False, False, False
+            while True:
+                if isinstance(ty, GraphQLNonNull):
+                    ty, nonnull = ty.of_type, True
+                    continue
+                if not nonnull:
+                    nullable = True
+                nonnull = False
+                if isinstance(ty, GraphQLList):
+                    is_list, ty = True, ty.of_type
+                    continue
+                break
+            if isinstance(ty, GraphQLInputObjectType):
+                base = [Sym("input"), ty.name]
+            elif isinstance(ty, GraphQLEnumType):
+                base = [Sym("enum"), ty.name]
+            elif isinstance(ty, GraphQLScalarType) and ty.name in (scalars_cfg or {}):
+                c = scalars_cfg[ty.name]
+                base = [Sym("custom"), opt(_item(c.get("type"))), opt(_item(c.get("serialize"))),
+                        opt(_item(c.get("parse"))), bool(c.get("serialize"))]
+            elif isinstance(ty, GraphQLScalarType) and ty.name in BUILTIN_SCALARS:
+                base = Sym("plain")
+            elif isinstance(ty, GraphQLScalarType) and ty.name == "Upload":
+                base = Sym("upload")
+            else:
+                base = Sym("any")
+            dv = f.ast_node.default_value if f.ast_node is not None else None
+            fields.append([fname, nullable, is_list, base, isinstance(dv, (ListValueNode, ObjectValueNode))])
+        out[name] = fields
+    return out
